@@ -116,6 +116,10 @@ func GenEngineScript(r *Rng, o EngineGenOpts, hist map[string]int) []string {
 		// the same directory spelled with and without a trailing separator across restarts
 		add("pathstyle %d", r.Pick(1, 2, 2))
 		hist["dirpath_spelling_varies"]++
+	} else if o.Backups && r.Chance(1, 5) {
+		// a DirPath that is not in canonical form: trailing separator, "/./", doubled separator
+		add("pathstyle %d", r.Pick(1, 3, 4))
+		hist["dirpath_not_canonical"]++
 	}
 	if o.HostileCaller || (o.HostileSome && r.Chance(1, 3)) {
 		add("hostile 1")
